@@ -103,10 +103,14 @@ def limbsToString (b : BigInt.Big) : String :=
 
 def magToString (m : List Nat) : String := limbsToString { neg := false, mag := m }
 
-/-- exact division by 10^19 on word lists (the parameter of `BigInt.toDecimal`) -/
+/-- division by 10^19 on word lists (the parameter of `BigInt.toDecimal`): the model's `divide` where it has
+    one, exact arithmetic on the value for the general (Knuth) exit -/
 def div19 (v : List Nat) : List Nat × Nat :=
-  let n := limbsVal v
-  (natToLimbs 100000 (n / 10000000000000000000), n % 10000000000000000000)
+  match BigInt.divWord v 10000000000000000000 with
+  | some (q, r) => (q, r.headD 0)                       -- the modelled `divide` exits (values of one word)
+  | none =>
+    let n := limbsVal v
+    (natToLimbs 100000 (n / 10000000000000000000), n % 10000000000000000000)
 
 def bigLimbLine : List String → String
   | ["mulw", a, w] =>
